@@ -19,6 +19,7 @@ func init() {
 		Assumptions: []string{"sync.WaitGroup / context cancellation semantics"},
 		Rules: map[string]string{
 			"R0": "in each stop unit claim.Store(false), state.Store(STOPPED) and the call of the cancel field have the election mutex (W) in their must-lockset and all precede the first Unlock; the goroutine that waits for the WaitGroup is started after that Unlock",
+			"R9": "every tracked go statement (wg.Add + go) outside tracked goroutines and the start/stop units has the election mutex in its must-lockset and is guarded by run-liveness (ctx != nil && ctx.Err() == nil, or state != STOPPED) or by claim == true, the tested state being read under that lock hold",
 			"R8": "in an API stop unit that takes a context / time-out: no KeyValue operation reachable by plain calls (each must be issued from a goroutine whose result is awaited with the remaining time); no blocking wait on time.After(d) reachable after another wait on the same d",
 			"R7": "at every test of the claim-set unit's result after an own write: must-follow from the refused (false) edge of a call that reaches a Delete-class store operation (its conditions are C01-R6: shutdown with key deletion under way, own revision)",
 			"R1": "every store to the state field outside stop units, the constructor and the start unit is guarded by state != STOPPED in its critical section; the claim-set unit by C02-R2",
@@ -297,7 +298,10 @@ func checkC09(c *Ctx) {
 			}
 		}
 		nSel := 0
-		eachInstr(su, func(in ssa.Instruction) {
+		body := m.bodyFns(su)
+		// the stop unit and the functions its body is split into (a wait helper with one call site
+		// - or one copy per call site, clone.go - is part of the stop call)
+		m.eachUnitInstr(su, func(in ssa.Instruction) {
 			switch x := in.(type) {
 			case *ssa.Select:
 				if !x.Blocking {
@@ -309,7 +313,7 @@ func checkC09(c *Ctx) {
 					if _, ok := isCallTo(st.Chan, "time.After"); ok {
 						timer = true
 					}
-					if s := m.Sym.Of(st.Chan); s.Op == "invoke" && strings.HasSuffix(s.Name, "Context.Done") && len(s.Args) == 1 && s.Args[0].Op == "param" {
+					if s := m.symInUnit(su, st.Chan); s.Op == "invoke" && strings.HasSuffix(s.Name, "Context.Done") && len(s.Args) == 1 && s.Args[0].Op == "param" {
 						done = true
 					}
 				}
@@ -320,10 +324,10 @@ func checkC09(c *Ctx) {
 					if call, ok := isCallTo(st.Chan, "time.After"); ok {
 						d := call.Call.Args[0]
 						if !hasCtx {
-							n, isC := constInt(d)
+							n, isC := constInt(m.traceValue(d))
 							c.check(isC && n == 5_000_000_000, "R3", fmt.Sprintf("wait #%d in %s is bounded by 5 s", nSel, fn), in, "timer duration %s", m.Sym.Of(d))
 						} else {
-							g := m.Gated(d)
+							g := m.gatedInUnit(su, d)
 							okT := strings.Contains(g, ".Timeout") && strings.Contains(g, "time.Until(") && strings.Contains(g, "5000000000")
 							c.check(okT, "R3", fmt.Sprintf("wait #%d in %s is bounded by the caller's time-out", nSel, fn), in, "timer duration %s (required: opts.Timeout, else the context's deadline, else 5 s)", clip(g, 300))
 						}
@@ -334,6 +338,9 @@ func checkC09(c *Ctx) {
 					c.viol("R3", "bare channel receive in "+fn, in, "a receive outside a select with a timer case can block the stop for ever")
 				}
 			case *ssa.Call:
+				if g := x.Call.StaticCallee(); g != nil && g != su && containsFn(body, g) {
+					return // part of the stop unit: its blocking instructions are judged above
+				}
 				if m.isBlockingInstr(in) {
 					c.viol("R3", "blocking call in "+fn, in, "%s in a stop unit is not bounded by a timer", calleeName(&x.Call))
 				}
@@ -393,6 +400,8 @@ func checkC09(c *Ctx) {
 			case strings.Contains(s, "DeleteKey"):
 			case m.isClaimValueSym(l.S), m.prevClaimLit(l, true):
 			case strings.Contains(s, "select "):
+			case m.isWaitHelperResult(l):
+				// the outcome of a wait helper: which case of its select was taken
 			case m.verdictCall(Lit{S: l.S, Truth: true}) != nil:
 			case strings.HasPrefix(s, "assertok ") && strings.HasSuffix(s, "("+m.path(m.KV)+")#1"):
 				// "does the store offer the conditional delete": chooses between two forms of the same deletion
@@ -521,24 +530,27 @@ func checkC09(c *Ctx) {
 			})
 		}
 		// waits with the full time-out, one after the other
-		var waits []ssa.Instruction
-		eachInstr(su, func(in ssa.Instruction) {
+		var waits, waitAt []ssa.Instruction // the selects, and the instructions of su that stand for them
+		m.eachUnitInstr(su, func(in ssa.Instruction) {
 			if sel, ok := in.(*ssa.Select); ok && sel.Blocking {
 				if _, isWait := m.selectWait(sel); isWait {
-					waits = append(waits, in)
+					if at := m.liftTo(su, in); at != nil {
+						waits = append(waits, in)
+						waitAt = append(waitAt, at)
+					}
 				}
 			}
 		})
-		for i := 1; i < len(waits); i++ {
+		for i := 0; i < len(waits); i++ {
 			d1, _ := m.selectWait(waits[i].(*ssa.Select))
-			s1 := m.Sym.Of(d1.Dur).String()
+			s1 := m.symInUnit(su, d1.Dur).String()
 			full := false
-			for j := 0; j < i; j++ {
-				if reachableAfter(waits[j], func(x ssa.Instruction) bool { return x == waits[i] }) == nil {
+			for j := 0; j < len(waits); j++ {
+				if j == i || waitAt[j] == waitAt[i] || reachableAfter(waitAt[j], func(x ssa.Instruction) bool { return x == waitAt[i] }) == nil {
 					continue
 				}
 				d0, _ := m.selectWait(waits[j].(*ssa.Select))
-				s0 := m.Sym.Of(d0.Dur).String()
+				s0 := m.symInUnit(su, d0.Dur).String()
 				// time.Until(deadline) on a common deadline is the remaining time; the full time-out
 				// again is either the same expression as an earlier full wait, or the very duration
 				// an earlier wait's deadline was computed from
@@ -551,6 +563,57 @@ func checkC09(c *Ctx) {
 			}
 			c.check(!full, "R8", fmt.Sprintf("waits of %s share one deadline: wait #%d", shortFn(su), i+1), waits[i],
 				"this wait takes the full time-out (%s) although it follows an earlier wait on the same time-out: the call can take twice its time-out", clip(s1, 80))
+		}
+	}
+
+	// ---- R9: no background goroutine is registered after the stop's wait can have ended ------------
+	// A go statement that registers with the WaitGroup is safe in a goroutine that is itself
+	// registered (the stop still waits for it) and in the start / stop units. Anywhere else - a
+	// callback of the connection, an API method - it must sit in a critical section of the election
+	// mutex that has just read, under that very lock hold, that the election runs (run-liveness) or
+	// that the claim stands (Stop clears the claim and cancels under the same mutex).
+	{
+		trackedFns := m.trackedOnlyFuncs()
+		nSp := 0
+		for _, sp := range m.Spawns() {
+			if !sp.Tracked || sp.At == nil {
+				continue
+			}
+			f := topFunc(sp.Fn)
+			if trackedFns[f] || containsFn(m.StopUnits, f) || f == m.method("Start") {
+				continue
+			}
+			nSp++
+			own := m.ownerOf(f)
+			gs := m.unitGuards(own, sp.At)
+			live, how, lits := m.livenessLits(gs)
+			if !live {
+				for _, l := range gs {
+					if l.Truth && m.isClaimLoadSym(l.S) {
+						live, how, lits = true, "claim == true", []Lit{l}
+					}
+				}
+			}
+			locked := la.MustBefore(sp.At)[m.implMuW()] || la.MustBefore(sp.At)[m.implMuR()]
+			fresh := true
+			var at ssa.Instruction
+			for _, l := range lits {
+				if ok, bad := m.readsUnderLock(l, own, la, m.path(m.Mu)); !ok {
+					fresh, at = false, bad
+				}
+			}
+			key := fmt.Sprintf("go #%d in %s registers a goroutine only while the election runs", ordinalOf(sp.Fn, sp.At, func(x ssa.Instruction) bool { _, ok := x.(*ssa.Go); return ok }), shortFn(sp.Fn))
+			switch {
+			case live && locked && fresh:
+				c.ok("R9", key, sp.At, "under the election mutex, guarded by %s read under that lock hold", how)
+			case live && locked:
+				c.viol("R9", key, sp.At, "the test that guards this go statement (%s) reads its state before the election mutex is taken (at %s): a Stop / StopWithContext that runs in between completes - claim cleared, WaitGroup wait over - and this goroutine is then started for a stopped instance: it issues store operations after the stop call has returned", how, c.posOf(at))
+			default:
+				c.viol("R9", key, sp.At, "%s can run at any time (connection callback / API) and registers a background goroutine without a run-liveness or claim test inside a critical section of the election mutex (locked: %v, test: %v): after Stop has returned it starts new background activity", shortFn(f), locked, live)
+			}
+		}
+		if nSp == 0 {
+			c.undecided("R9", "instance-floor", nil, "no tracked go statement outside tracked goroutines and the start/stop units found; 2 on the reference tree (follower loop, reconnect verification)")
 		}
 	}
 
